@@ -81,7 +81,7 @@ def P3_adapter(ctx):
             oks = True
     ctx.ob('P3', ta, 'adapter-is-stateful-no-input-cache', oks, '', site=ta.loc(ta.b['lo']),
            what='results depend on journal state, which Alloy\'s input-only cache key does not cover')
-    cls = [b for b in ctx.facts.bodies if b['kind'] == 'closure' and b['fn'].startswith(ta.name + '::')]
+    cls = ctx.facts.closures_under(ta.name)
     rows = set()
     bad = []
     for c in cls:
@@ -253,7 +253,7 @@ def G1_config_flow(ctx):
                 c = norm_callee(e.d['callee'])
                 if not (c.endswith('Vec::with_capacity') or c.endswith('::into_iter') or 'thread::scope' in c):
                     bad.append(e)
-    cls = [b for b in ctx.facts.bodies if b['kind'] == 'closure' and b['fn'].startswith(f.name + '::')]
+    cls = ctx.facts.closures_under(f.name)
     for c in cls:
         cf = ctx.fn(c)
         for p in live(cf.paths()):
@@ -273,7 +273,7 @@ def G2_path_sibling(ctx):
         raise AnchorLost('GrevmExecutor::execute_incarnation')
     a = ctx.fn(ex[0])
     rf = ctx.method('scheduler::Scheduler<DB>', 'replay_uncommitted_suffix')
-    cls = [b for b in ctx.facts.bodies if b['kind'] == 'closure' and b['parent'] == rf.name]
+    cls = ctx.facts.closures_of(rf.name)
 
     def drive(fn, txid_pred, mode):
         out = []
